@@ -22,6 +22,7 @@ type fakeWriter struct {
 	bodies     [][]byte
 	writeCalls int
 	onWrite    func()
+	hold       chan struct{} // when set, WriteHeader blocks until it is closed (a slow connection)
 }
 
 func (w *fakeWriter) Header() http.Header {
@@ -30,7 +31,12 @@ func (w *fakeWriter) Header() http.Header {
 	}
 	return w.hdr
 }
-func (w *fakeWriter) WriteHeader(code int) { w.status = append(w.status, code) }
+func (w *fakeWriter) WriteHeader(code int) {
+	if w.hold != nil {
+		<-w.hold
+	}
+	w.status = append(w.status, code)
+}
 func (w *fakeWriter) Write(b []byte) (int, error) {
 	if w.onWrite != nil {
 		w.onWrite()
